@@ -630,3 +630,74 @@ func RunVariants(r *Replay, ops []Op) (models []*Replay, labels []string) {
 	}
 	return
 }
+
+// EnumeratePrefixes calls fn for the images in which every pending directory operation and every pending
+// length change has landed and, of the file with the most pending chunks, exactly the first p chunks in
+// file order have landed, for p = 0, stride, 2*stride, ... and p = all (other files: everything landed).
+// This is the family "a large write reached the disk up to some offset"; it stays small for writes of any size.
+func (r *Replay) EnumeratePrefixes(stride int, fn func(st *State, info ImageInfo) bool) (count int) {
+	if stride < 1 {
+		stride = 1
+	}
+	mask := uint64(0)
+	for i := 0; i < len(r.dirPend) && i < 64; i++ {
+		mask |= 1 << uint(i)
+	}
+	dm := applyDirOps(r.dirDur, r.dirPend, mask)
+	names := make([]string, 0, len(dm))
+	for n := range dm {
+		names = append(names, n)
+	}
+	sort.Strings(names)
+	vars := make([]fileVar, 0, len(names))
+	big := -1
+	for _, n := range names {
+		f := r.files[dm[n]]
+		if f == nil {
+			f = &pfile{}
+		}
+		v := buildFileVar(n, f)
+		vars = append(vars, v)
+		if big < 0 || len(v.chunks) > len(vars[big].chunks) {
+			big = len(vars) - 1
+		}
+	}
+	if big < 0 || len(vars[big].chunks) == 0 {
+		return 0
+	}
+	n := len(vars[big].chunks)
+	// chunks of the big file in file order
+	order := make([]int, n)
+	for i := range order {
+		order[i] = i
+	}
+	sort.Slice(order, func(a, b int) bool { return vars[big].chunks[order[a]] < vars[big].chunks[order[b]] })
+	emit := func(p int) bool {
+		st := NewState()
+		for i, v := range vars {
+			sel := make([]int, len(v.chunks))
+			for j := range sel {
+				sel[j] = len(v.options[j]) // latest pending value
+			}
+			if i == big {
+				for k := p; k < n; k++ {
+					sel[order[k]] = 0
+				}
+			}
+			st.Files[v.name] = v.build(len(v.lens)-1, sel)
+		}
+		st.Meta = r.meta
+		for k, v := range r.stable {
+			st.Stable[k] = v
+		}
+		count++
+		return fn(st, ImageInfo{Dropped: n - p, Landed: p, Desc: fmt.Sprintf("prefix: first %d of %d pending chunks of %s landed", p, n, vars[big].name)})
+	}
+	for p := 0; p < n; p += stride {
+		if !emit(p) {
+			return count
+		}
+	}
+	emit(n)
+	return count
+}
